@@ -284,7 +284,12 @@ STATEMENTS = [
     ('SELECT b FROM #u', 0),
     ('SELECT a + b AS s', 0),           # no FROM clause: the default table
     ('SELECT a FROM (SELECT b AS a FROM #u)', 0),
+    ('SELECT * FROM (SELECT a AS x, b AS y FROM #t)', 0),
 ]
+# output names that do not depend on anything but the statement (checked besides the fresh-connection result, which
+# shares this process and therefore any process-wide state)
+EXPECTED_NAMES = {'SELECT a FROM (SELECT b AS a FROM #u)': ['a'], 'SELECT * FROM (SELECT a AS x, b AS y FROM #t)': ['x', 'y'],
+                  'SELECT b FROM #u': ['b']}
 
 
 def _conn(rows, urows):
@@ -333,12 +338,14 @@ def make_history(k1, k2, reuse):
                 return 'accepted-because-of-history'
             if got[0] != want[0] or not same_rows(got[1], want[1]):
                 return 'result-depends-on-history'
+            if text in EXPECTED_NAMES and [name for name, _ in got[0]] != EXPECTED_NAMES[text]:
+                return 'columns-depend-on-history'
         if list(rows) != before:
             return 'source-data-mutated'
         return 'ok'
 
 
-_PAIRS_QUICK = [(0, 1), (1, 2), (2, 0), (3, 4), (4, 3), (5, 6), (7, 6), (5, 4), (6, 5), (1, 1), (2, 2), (3, 6)]
+_PAIRS_QUICK = [(0, 1), (1, 2), (2, 0), (3, 4), (4, 3), (5, 6), (7, 6), (5, 4), (6, 5), (1, 1), (2, 2), (3, 6), (7, 8), (8, 7)]
 for _k1 in range(len(STATEMENTS)):
     for _k2 in range(len(STATEMENTS)):
         for _reuse in (False, True):
